@@ -112,7 +112,7 @@ OUTSIDE = [
     "urlencoded texts longer than the stated length",
     "malformed Content-Length / Transfer-Encoding header values (not body bytes)",
 ]
-BUDGET_S = {"quick": 270, "thorough": 1180}
+BUDGET_S = {"quick": 290, "thorough": 1180}
 STATS = {}
 
 stubs.install_body_io()
@@ -582,6 +582,7 @@ MP_SPELLINGS = {
     "quoted": 'multipart/form-data; boundary="b"',
     "no-space": "multipart/form-data;boundary=b",
     "mixed": "multipart/mixed; boundary=b; charset=utf-8",
+    "cr-in-boundary": "multipart/form-data; boundary=b\rc",
 }
 
 
@@ -700,7 +701,7 @@ HANG_SHAPES = {
     "q-inner": (b'S="?P?"; z=1', "quoted: a free byte, the pump, a free byte; another parameter"),
     "bare": (b"S=P?; z=1", "unquoted pump, a free byte, another parameter"),
     "bare-last": (b"S=?P?", "unquoted: a free byte, the pump, a free byte ends the line"),
-    "key": (b"P?=1; z=1", "the pump as parameter key, a free byte before the `=`"),
+    "key": (b"P=?; z=1", "the pump as parameter key, a free byte as its value, another parameter"),
 }
 
 
@@ -751,8 +752,10 @@ HANG_CTYPES = {
     "after-value": "multipart/x; boundary=bPC; q=1",
     "both": "multipart/P?boundary=PC",
     "quoted": 'multipart/x; boundary="PCP',
+    "no-key-marks": "multipart/PCboundaryP",
+    "empty-value": "multipart/PC; boundary=",
 }
-CTYPE_MARKS = [";", '"', "\n", " ", "=", "\\", "a", "\r", "\t", ","]
+CTYPE_MARKS = [";", '"', "\n", " ", "=", "\\", "a", "\t", ","]     # (a CR in the boundary: see mp/ctype/cr-in-boundary)
 
 
 def make_hang_ctype(tag, units, lengths, kind):
@@ -818,17 +821,43 @@ HOLES_THOROUGH = [
     ("ctype", "line-break", "files", BOTH, 70), ("text", "preamble", "forms", E4, 46), ("file", "name-val", "files", BOTH, 40),
     ("text", "name-val", "forms", BOTH, 25), ("text", "hvalue-2", "forms", E4, 16),
 ]
-# (line, shape, pump units, run lengths, framing, one read, CPU seconds measured on the unchanged tree)
-PLAIN, MARKS = [b"a"], [b"=", b'"', b";", b"\\", b" "]
-PAIRS = [b"a=", b'="', b'\\"', b"a;", b'""', b'a"', b"; ", b"a\\"]
+# pump units by group name
+UNITS = {
+    "plain": [b"a"], "marks": [b"=", b'"', b"\\", b" "], "plain+marks": [b"a", b"=", b'"', b"\\", b" "],
+    "pairs": [b"a=", b'="', b'\\"', b'""', b'a"', b"a\\"], "pairs-a": [b"a=", b'="', b'\\"'],
+    "pairs-b": [b'""', b'a"', b"a\\"], "semis": [b";", b"a;", b"; "], "semi": [b";"],
+    "plain+space": [b"a", b" "],
+    "ct": ["a", "=", ";", "boundary=", '"'], "ct-plain": ["a"], "ct-marks": ["a", "=", ";", '"'], "ct-two": ["a", ";"],
+    "block": [b"a", b"\r", b"\n", b"\n\r", b"\r\nY:", b": "], "block-few": [b"a", b"\r", b"\n\r"],
+}
+# (line, shape, pump unit group, run lengths, framing, one read, CPU seconds measured on the unchanged tree)
+# a free byte that ends up in a parameter KEY is hashed by parse_header (one path per value): the `;` pumps go with the
+# shape whose free byte is inside a value in quick, with other shapes in thorough
 HANG_QUICK = [
-    ("name", "q-open", PLAIN, (64, 150), "cl", False, 10),
+    ("name", "q-open", "plain", (64, 150), "cl", False, 16), ("filename", "q-close", "plain", (64, 150), "chunked", False, 20),
+    ("other", "bare", "plain", (120,), "cl", True, 8), ("ctype", "q-last", "plain", (120,), "cl", False, 11),
+    ("filename", "q-close", "marks", (96,), "cl", False, 36), ("name", "bare", "marks", (96,), "cl", False, 31),
+    ("name", "q-close", "pairs-a", (96,), "cl", False, 25), ("filename", "q-open", "pairs-b", (96,), "cl", False, 23),
+    ("other", "q-open", "semis", (96,), "cl", False, 24), ("name", "key", "plain+space", (96,), "cl", False, 12),
 ]
-HANG_THOROUGH = []
-HANG_CTYPE_QUICK = [(["a"], (60,), "forms", 10)]
-HANG_CTYPE_THOROUGH = []
-HANG_BLOCK_QUICK = [([b"a"], (60,), "forms", "cl", 10)]
-HANG_BLOCK_THOROUGH = []
+ONE_FREE = ["q-open", "q-last", "q-close", "q-close-last", "bare", "key"]
+HANG_THOROUGH = [
+    (["name", "filename", "other", "ctype"][(i + j) % 4], shape, group, (40, 200), ["cl", "chunked"][(i + j) % 2],
+     (i + j) % 3 == 2, 100)
+    for i, shape in enumerate(ONE_FREE) for j, group in enumerate(("plain+marks", "pairs"))
+] + [("filename", "q-open", "semis", (40, 200), "cl", False, 50),
+     ("other", "q-last", "semi", (96,), "cl", False, 140), ("name", "bare", "semi", (96,), "cl", False, 140),
+     ("name", "q-both", "plain", (96,), "cl", False, 200), ("filename", "q-inner", "plain", (96,), "cl", False, 200),
+     ("other", "bare-last", "plain", (96,), "chunked", False, 200)]
+# (template, pump unit group, run lengths, handler, CPU seconds)
+HANG_CTYPE_QUICK = [("quoted", "ct", (60, 150), "forms", 19), ("before-key", "ct-plain", (60,), "forms", 11),
+                    ("no-key-marks", "ct", (60, 150), "forms", 12)]
+HANG_CTYPE_THOROUGH = [("value-end", "ct", (60, 150), "forms", 13), ("after-value", "ct", (60, 150), "files", 10), ("before-key", "ct-marks", (40, 150), "forms", 120),
+                       ("no-key", "ct-marks", (40, 150), "forms", 120), ("both", "ct-two", (96,), "forms", 150),
+                       ("empty-value", "ct", (60, 150), "forms", 12)]
+# (pump unit group, run lengths, handler, framing, CPU seconds)
+HANG_BLOCK_QUICK = [("block-few", (100,), "forms", "cl", 30)]
+HANG_BLOCK_THOROUGH = [("block", (60, 150), "forms", "cl", 145), ("block", (60, 150), "files", "chunked", 65)]
 JSON_QUICK = ["obj-open", "arr", "num", "str", "nul", "member-value", "member-key", "any2", "escape", "nested", "two-values"]
 
 
@@ -925,44 +954,48 @@ def queries(tier):
     def show(units):
         return ", ".join(repr(x)[1:] if isinstance(x, bytes) else repr(x) for x in units)
 
-    for keytag, shape, units, lengths, framing, whole, cpu in (HANG_THOROUGH + HANG_QUICK if T else HANG_QUICK):
+    def lens(lengths):
+        return ", ".join(str(x) for x in lengths)
+
+    O1H = "every regular expression of the body path is interpreted with a step count and must finish within " \
+          "50*L*L+1000 steps on a text of L characters"
+    for keytag, shape, group, lengths, framing, whole, cpu in (HANG_THOROUGH + HANG_QUICK if T else HANG_QUICK):
         front, start, key, kind = HANG_KEYS[keytag]
         template, what = HANG_SHAPES[shape]
-        add("hang/field/%s/%s/%s/%s%s/n%s" % (keytag, shape, "+".join("%02x" * len(x) % tuple(x) for x in units), framing,
-                                             "-whole" if whole else "", "-".join(str(x) for x in lengths)),
+        units = UNITS[group]
+        add("hang/field/%s/%s/%s/%s%s/n%s" % (keytag, shape, group, framing, "-whole" if whole else "",
+                                             "-".join(str(x) for x in lengths)),
             make_hang_field(keytag, shape, units, lengths, framing, whole),
             "multipart body (boundary b) with one part whose header line %r carries the parameter %r (S = %r, each '?' a "
             "fully symbolic byte, all 256 values; P = the pump: one of the units {%s} repeated and cut to a run length "
-            "from {%s}, unit and length picked by the solver) - %s; line lengths up to %d characters; %s framing, %s; "
-            "max_memfile_size 2048; handler reads request.%s; every regular expression of the body path is interpreted "
-            "with a step count and must finish within 50*L*L+1000 steps on a text of L characters"
-            % ((front + [start])[-1] + b"...", template, key, show(units), ", ".join(str(x) for x in lengths), what,
+            "from {%s}, unit and length picked by the solver) - %s; header lines up to %d characters; %s framing, %s; "
+            "max_memfile_size 2048; handler reads request.%s; %s"
+            % ((front + [start])[-1] + b"...", template, key, show(units), lens(lengths), what,
                len(start) + len(template) + len(key) + max(lengths), framing,
-               "the body arrives in one read" if whole else "the parameter arrives in a read of its own", kind),
-            max(90, 3 * cpu), ["answered"], "hang/field",
+               "the body arrives in one read" if whole else "the parameter arrives in a read of its own", kind, O1H),
+            max(90, 3 * cpu), ["answered", "status-4xx"], "hang/field",
             {"line": keytag, "shape": shape, "units": [x.decode("latin1") for x in units], "lengths": list(lengths),
              "framing": framing, "whole": whole, "handler": kind})
-    for units, lengths, kind, cpu in (HANG_CTYPE_THOROUGH + HANG_CTYPE_QUICK if T else HANG_CTYPE_QUICK):
-        add("hang/ctype/%s/%s/n%s" % ("+".join("%02x" * len(x) % tuple(x.encode("latin1")) for x in units), kind,
-                                      "-".join(str(x) for x in lengths)),
-            make_hang_ctype(units, lengths, kind),
-            "Content-Type = 'multipart/' + P + c1 + 'boundary=' + c2 + P + c3 with c1..c3 free characters U+0001..U+00FF, "
-            "P = one of the units {%s} repeated and cut to a run length from {%s} (picked by the solver): values up to "
-            "%d characters; body = skeleton 'text'; handler reads request.%s; the boundary expression of BodyMixin._body "
-            "(and the others) must finish within 50*L*L+1000 steps" % (show(units), ", ".join(str(x) for x in lengths),
-                                                                     22 + 2 * max(lengths), kind),
+    for tag, group, lengths, kind, cpu in (HANG_CTYPE_THOROUGH + HANG_CTYPE_QUICK if T else HANG_CTYPE_QUICK):
+        units = UNITS[group]
+        add("hang/ctype/%s/%s/%s/n%s" % (tag, group, kind, "-".join(str(x) for x in lengths)),
+            make_hang_ctype(tag, units, lengths, kind),
+            "Content-Type %r with P = one of the units {%s} repeated and cut to a run length from {%s}, '?' = a free "
+            "character U+0001..U+00FF, C = one of {%s} (unit, length and C picked by the solver): values up to %d "
+            "characters; empty body; handler reads request.%s; %s"
+            % (HANG_CTYPES[tag], show(units), lens(lengths), show(CTYPE_MARKS),
+               len(HANG_CTYPES[tag]) + HANG_CTYPES[tag].count("P") * max(lengths), kind, O1H),
             max(90, 3 * cpu), ["answered"], "hang/ctype",
-            {"units": list(units), "lengths": list(lengths), "handler": kind})
-    for units, lengths, kind, framing, cpu in (HANG_BLOCK_THOROUGH + HANG_BLOCK_QUICK if T else HANG_BLOCK_QUICK):
-        add("hang/block/%s/%s/%s/n%s" % ("+".join("%02x" * len(x) % tuple(x) for x in units), kind, framing,
-                                         "-".join(str(x) for x in lengths)),
+            {"template": HANG_CTYPES[tag], "units": list(units), "lengths": list(lengths), "handler": kind})
+    for group, lengths, kind, framing, cpu in (HANG_BLOCK_THOROUGH + HANG_BLOCK_QUICK if T else HANG_BLOCK_QUICK):
+        units = UNITS[group]
+        add("hang/block/%s/%s/%s/n%s" % (group, kind, framing, "-".join(str(x) for x in lengths)),
             make_hang_block(units, lengths, kind, framing),
             "multipart part whose header block is the name line + 'X: ' + P + two fully symbolic bytes + CRLF + data, P = "
             "one of the units {%s} repeated and cut to a run length from {%s} (picked by the solver); the free bytes "
-            "arrive with 3 bytes of context in a read of their own; %s framing; handler reads request.%s; the header-block "
-            "scanner and the per-line parser must finish within 50*L*L+1000 steps"
-            % (show(units), ", ".join(str(x) for x in lengths), framing, kind),
-            max(90, 3 * cpu), ["answered"], "hang/block",
+            "arrive with 3 bytes of context in a read of their own; %s framing; handler reads request.%s; %s"
+            % (show(units), lens(lengths), framing, kind, O1H),
+            max(90, 3 * cpu), ["answered", "status-2xx"], "hang/block",
             {"units": [x.decode("latin1") for x in units], "lengths": list(lengths), "handler": kind, "framing": framing})
 
     # ---- chunked stream of a JSON / urlencoded / opaque body cut at every offset, with and without chunk extensions
